@@ -293,7 +293,7 @@ class TNCtor(TNCore):
         if op.get('env', {}).get('layout') == 'ro':
             v.flags.writeable = False
         vb = v.tobytes()
-        owners = ('C03',) if tol == 0 else ('C13',)
+        owners = ('C03', 'C13') if tol == 0 else ('C13',)
         st, ref = self.guarded(op, lambda: ptn.MPS.from_vector(d, L, v, tol=tol), operands=(src,), owners=owners)
         self.check(v.tobytes() == vb, 'C19', 'argument_vector_modified', 'from_vector changed its input vector')
         if st != 'ok':
@@ -305,7 +305,7 @@ class TNCtor(TNCore):
         nv = float(np.linalg.norm(v))
         dev = float(np.linalg.norm(o.dense - v))
         if tol == 0:
-            self.check(dev <= TOL * max(nv, o.scale), 'C03', 'from_vector_exact', lambda: f'|mps - v|={dev:.3e} |v|={nv:.3e}')
+            self.check(dev <= TOL * max(nv, o.scale), ['C03', 'C13'], 'from_vector_exact', lambda: f'|mps - v|={dev:.3e} |v|={nv:.3e}')
         else:
             self.check(dev <= np.sqrt(L * tol) * nv + TOL * max(nv, o.scale), 'C13', 'from_vector_bound',
                        lambda: f'|mps - v|={dev:.3e} > sqrt(L tol)|v|={np.sqrt(L*tol)*nv:.3e} (tol={tol}, L={L})')
